@@ -7,6 +7,7 @@ a malloc'ed block (so ASan decides over-reads).
 import sys, os, struct
 from vlib import gen, core
 
+MEMCHECK_SAMPLE = 6
 RULE = ("case = (item type, random memory contents, misalignment 0..7, n); item types: every "
         "integer type (all unpack fast paths), _Bool (bytes >= 2 included), char, wchar_t, "
         "char16_t, char32_t, float, double, long double, complex, pointers, enums, structs, "
